@@ -47,6 +47,7 @@ PROPS = {
                         "which (key, priority) pairs PerTypeLookup::new registers per node kind (the table itself; populates a HashMap) - only its priority/conflict resolution step is proved (Verus)"],
     },
     "C03": {
+        "verus": ["block_partition"],
         "level": "proof",
         "design_ref": "DESIGN.md §3 C03",
         "technique": "Kani contract harnesses on the decoder's primitives and one-step block-reader contracts from arbitrary state, oracle = executable Avro spec; Verus lemma lifts the step contract to any block partition",
